@@ -7,6 +7,12 @@ PENDING = "check not built yet in this session (construction order: DESIGN.md se
 NOT_APPLICABLE = {("C%02d" % i): PENDING for i in range(1, 21)}
 
 TEXT = {
+    "C17": {
+        "text": "Proved: ImportJSON is total on every parsed document (error or spec, never a panic), the encoding / prefix name tables are mutually inverse on the exportable vocabulary and agree with the live maps regenerated from specs/builder.go, padding descriptions import back to the same padder. The model of export and import is compared with the library on generated specs (exported document as a canonical tree, imported spec as a term) and on mutated documents; the oracle checks the structural round trip, byte-identical re-export, determinism and identical behaviour on the real library (partial: the export/import identity for whole spec trees is not yet a theorem).",
+        "design_ref": "DESIGN.md section 6 C17",
+        "note": "Trusted: Coq kernel, hand-written model of specs/builder.go on parsed documents (validated by correspondence), the table translator, encoding/json's parser, Go harness.",
+        "technique": "Rocq theorems over a Gallina model + generated name tables + differential correspondence + property oracle",
+    },
     "C18": {
         "text": "The catalogue theorem is evaluated on the error-site table regenerated from the sources on every run: outside a closed, justified list of sites bounded below 8 value bytes, no error message formats a value-derived string unless hidden behind a SafeError, and every error that quotes its input (strconv, hex, json) is hidden or bounded. The Describe masking theorems show the printed value never contains the complete PAN / PIN block. The dynamic oracle induces failures with high-entropy secrets across kinds, encodings and operations and greps the library's error texts and Describe output (partial: the translator's classification is syntactic; track filters are outside the model).",
         "design_ref": "DESIGN.md section 6 C18",
